@@ -164,7 +164,8 @@ func (k Keeper) UpdateServiceBinding(
 
 	// update the pricing
 	if len(pricing) != 0 {
-		parsedPricing, err := k.ParsePricing(ctx, pricing)
+		var err error
+		parsedPricing, err = k.ParsePricing(ctx, pricing)
 		if err != nil {
 			return err
 		}
